@@ -62,9 +62,13 @@ def run_property(prop, tier, A, seed):
                 print(f"ANALYSIS-ERROR property={prop} {p}")
             return 2
         for r in rules:
-            if len(r.instances) < r.floor:
-                print(f"ANALYSIS-ERROR property={prop} rule {r.rid} matched {len(r.instances)} instance(s), fewer "
-                      f"than the {r.floor} confirmed by hand — the rule lost its anchors (vacuous pass refused)")
+            # r.floor = instances confirmed by hand at the pinned commit.  A refactoring may
+            # legitimately merge duplicated sites, so the run is refused only when a rule has
+            # lost more than two thirds of them (or all): it then no longer sees its anchors.
+            need = max(1, (r.floor + 2) // 3) if r.floor else 0
+            if len(r.instances) < need:
+                print(f"ANALYSIS-ERROR property={prop} rule {r.rid} matched {len(r.instances)} instance(s); {r.floor} were "
+                      f"confirmed by hand and at least {need} are required — the rule lost its anchors (vacuous pass refused)")
                 return 2
         selftest = None
         if tier == "thorough":
